@@ -25,11 +25,12 @@ func init() { register("C16", runC16) }
 // LocalFSWriter, so the block map is signed and carries the right checksum of every item
 var c16variants = []string{
 	"ok", "ok", "ok",
-	"states-foreign-tree",  // states tree (and manifest root) of other states
-	"states-root-mismatch", // manifest.StatesTree is not the root of the states tree
-	"state-extra",          // one more state than the tree has
-	"state-missing",        // one state of the tree is missing
-	"state-other-height",   // one state (and its tree node) of another height
+	"states-foreign-tree",      // states tree (and manifest root) of other states
+	"states-root-mismatch",     // manifest.StatesTree is not the root of the states tree
+	"state-extra",              // one more state than the tree has
+	"state-missing",            // one state of the tree is missing
+	"state-other-height",       // the first state (and its tree node) is of another height
+	"state-other-height-later", // a later state is of another height (needs two states at least)
 	"ops-foreign-tree",
 	"ops-root-mismatch",
 	"op-extra",
@@ -63,7 +64,7 @@ func runC16(c *Ctx) error {
 		}
 	}
 	env := &c16env{c19env: env0, nodes: []base.LocalNode{env0.node, base.RandomLocalNode(), base.RandomLocalNode()}}
-	n := 40
+	n := 60
 	if c.Thorough() {
 		n = 1200
 	}
@@ -337,8 +338,14 @@ func c16write(c *Ctx, env *c16env, root, variant string, height base.Height, rou
 	for i := 0; i < nsts; i++ {
 		sts = append(sts, newState(height))
 	}
-	if variant == "state-other-height" {
-		sts[c.Intn(len(sts))] = newState(height - 1)
+	switch variant {
+	case "state-other-height":
+		sts[0] = newState(height - 1)
+	case "state-other-height-later":
+		if len(sts) < 2 {
+			sts = append(sts, newState(height))
+		}
+		sts[1+c.Intn(len(sts)-1)] = newState(height - 1)
 	}
 	treeSts = sts
 	writtenSts := sts
